@@ -231,6 +231,8 @@ impl Object {
     /// It is up to the caller to ensure the object is actually heap-allocated and points to a valid memory location.
     #[inline]
     unsafe fn get<'a, T>(self) -> &'a T {
+        #[cfg(feature = "verif")]
+        crate::verif::on_deref(self.as_ptr() as usize);
         &*(self.as_ptr() as *const T)
     }
 
@@ -238,6 +240,8 @@ impl Object {
     /// It is up to the caller to ensure the object is actually heap-allocated and points to a valid memory location.
     #[inline]
     unsafe fn get_mut<'a, T>(self) -> &'a mut T {
+        #[cfg(feature = "verif")]
+        crate::verif::on_deref(self.as_ptr() as usize);
         &mut *(self.as_ptr() as *mut T)
     }
 
@@ -438,12 +442,18 @@ impl Float {
 
     #[inline]
     unsafe fn destroy(obj: Object) {
+        #[cfg(feature = "verif")]
+        if crate::verif::on_free(obj.as_ptr() as usize) {
+            return;
+        }
         drop_in_place(obj.as_ptr() as *mut Self);
         dealloc(obj.as_ptr(), Layout::new::<Self>());
     }
 
     fn from_f64(value: f64) -> Object {
         let ptr = Object::with_type(allocate(Layout::new::<Self>()), Type::Float);
+        #[cfg(feature = "verif")]
+        crate::verif::on_alloc(ptr.as_ptr() as usize, Type::Float);
         let obj = unsafe { ptr.get_mut::<Self>() };
         init!(obj.value => value );
         ptr
@@ -456,12 +466,18 @@ struct String {
 
 impl String {
     unsafe fn destroy(ptr: Object) {
+        #[cfg(feature = "verif")]
+        if crate::verif::on_free(ptr.as_ptr() as usize) {
+            return;
+        }
         drop_in_place(ptr.as_ptr() as *mut Self);
         dealloc(ptr.as_ptr(), Layout::new::<Self>());
     }
 
     fn from_string(value: RString) -> Object {
         let ptr = Object::with_type(allocate(Layout::new::<Self>()), Type::String);
+        #[cfg(feature = "verif")]
+        crate::verif::on_alloc(ptr.as_ptr() as usize, Type::String);
         let obj = unsafe { ptr.get_mut::<Self>() };
         init!(obj.value => value);
         ptr
@@ -479,12 +495,18 @@ impl Array {
 
     /// Drops and deallocate this NlArray struct and its value
     unsafe fn destroy(ptr: Object) {
+        #[cfg(feature = "verif")]
+        if crate::verif::on_free(ptr.as_ptr() as usize) {
+            return;
+        }
         drop_in_place(ptr.as_ptr() as *mut Self);
         dealloc(ptr.as_ptr(), Layout::new::<Self>());
     }
 
     fn from_vec(vec: Vec<Object>) -> Object {
         let ptr = Object::with_type(allocate(Layout::new::<Self>()), Type::Array);
+        #[cfg(feature = "verif")]
+        crate::verif::on_alloc(ptr.as_ptr() as usize, Type::Array);
         let obj = unsafe { ptr.get_mut::<Self>() };
         init!(obj.value => vec);
         ptr
